@@ -2,7 +2,7 @@ From Coq Require Import List NArith Bool.
 From V.C10 Require Import Model.
 From V.Mgr Require Import DialShape DialShapeProofs Model Caps Ledger LedgerInv.
 From V.Tcp Require Model Proofs Theorems Variants VariantTheorems Once Settle.
-From V.C05 Require TcpCompose.
+From V.C05 Require TcpCompose TrCompose.
 Import ListNotations.
 Open Scope N_scope.
 From V.C05 Require Import Properties.
@@ -507,3 +507,88 @@ Check (C05_tr_can_always_settle :
   exists es, forallb Tcp.Settle.env_ev es = true /\
              Tcp.VariantTheorems.treach t (fst (Tcp.Settle.runG s g es)) (snd (Tcp.Settle.runG s g es)) /\
              Tcp.Model.g_open (snd (Tcp.Settle.runG s g es)) = [] /\ Tcp.Model.g_neg (snd (Tcp.Settle.runG s g es)) = []).
+Check (C05_sysT_feasible :
+  forall (Tg : tr) (L : limits),
+  (forall t : tr, installed L t = true <-> t = Tg) ->
+  forall xs : list TrCompose.xev,
+  TrCompose.xfeasible Tg L TrCompose.sys0 xs ->
+  feasible L init g0 (TrCompose.sys_trace Tg L TrCompose.sys0 xs) /\
+  (TrCompose.s_m (TrCompose.sys_run Tg L TrCompose.sys0 xs), TrCompose.s_g (TrCompose.sys_run Tg L TrCompose.sys0 xs)) =
+  lrun L init g0 (TrCompose.sys_trace Tg L TrCompose.sys0 xs)).
+Check (C05_sysT_step :
+  forall (Tg : tr) (L : limits),
+  (forall t : tr, installed L t = true <-> t = Tg) ->
+  forall (st : TrCompose.sys) (x : TrCompose.xev),
+  TrCompose.Inv Tg L st ->
+  TrCompose.xok L st x ->
+  feasible L (TrCompose.s_m st) (TrCompose.s_g st) (TrCompose.sys_evs Tg L st x) /\ TrCompose.Inv Tg L (TrCompose.sys_step Tg L st x)).
+Check (C05_sysT_at_most_one_outcome :
+  forall (Tg : tr) (L : limits),
+  (forall t : tr, installed L t = true <-> t = Tg) ->
+  forall xs : list TrCompose.xev,
+  TrCompose.xfeasible Tg L TrCompose.sys0 xs -> NoDup (terminals L init (TrCompose.sys_trace Tg L TrCompose.sys0 xs))).
+Check (C05_sysT_no_silence :
+  forall (Tg : tr) (L : limits),
+  (forall t : tr, installed L t = true <-> t = Tg) ->
+  forall xs : list TrCompose.xev,
+  TrCompose.xfeasible Tg L TrCompose.sys0 xs ->
+  let st := TrCompose.sys_run Tg L TrCompose.sys0 xs in
+  quiescent (TrCompose.s_m st) (TrCompose.s_g st) ->
+  forall (c : N) (p : peer),
+  lookup c (g_att (TrCompose.s_g st)) = Some p ->
+  In c (g_done (TrCompose.s_g st)) \/ In c (g_super (TrCompose.s_g st)) /\ In p (g_rep (TrCompose.s_g st)) \/ In c (g_limrej (TrCompose.s_g st))).
+Check (C05_sysT_no_wedge :
+  forall (Tg : tr) (L : limits),
+  (forall t : tr, installed L t = true <-> t = Tg) ->
+  forall xs : list TrCompose.xev,
+  TrCompose.xfeasible Tg L TrCompose.sys0 xs ->
+  let st := TrCompose.sys_run Tg L TrCompose.sys0 xs in
+  quiescent (TrCompose.s_m st) (TrCompose.s_g st) -> forall p : peer, settled (state_of (TrCompose.s_m st) p)).
+Check (C05_sysT_no_stuck :
+  forall (Tg : tr) (L : limits),
+  (forall t : tr, installed L t = true <-> t = Tg) ->
+  forall (xs : list TrCompose.xev) (x : TrCompose.xev) (s : N),
+  TrCompose.xfeasible Tg L TrCompose.sys0 (xs ++ [x]) ->
+  forall (e : ev) (m : mgr) (g : ghost) (es2 : list ev),
+  TrCompose.sys_evs Tg L (TrCompose.sys_run Tg L TrCompose.sys0 xs) x = e :: es2 ->
+  (m, g) = (TrCompose.s_m (TrCompose.sys_run Tg L TrCompose.sys0 xs), TrCompose.s_g (TrCompose.sys_run Tg L TrCompose.sys0 xs)) ->
+  ~ In (Stuck s) (snd (step L m e))).
+Check (C05_sysT_quiescent :
+  forall (Tg : tr) (L : limits),
+  (forall t : tr, installed L t = true <-> t = Tg) ->
+  forall xs : list TrCompose.xev,
+  TrCompose.xfeasible Tg L TrCompose.sys0 xs ->
+  let st := TrCompose.sys_run Tg L TrCompose.sys0 xs in
+  quiescent (TrCompose.s_m st) (TrCompose.s_g st) <->
+  TrCompose.TM.g_open (TrCompose.s_tg st) = [] /\ TrCompose.TM.g_neg (TrCompose.s_tg st) = [] /\ accepting (TrCompose.s_m st) = []).
+Check (C05_sysT_owed_is_pending :
+  forall (Tg : tr) (L : limits),
+  (forall t : tr, installed L t = true <-> t = Tg) ->
+  forall (xs : list TrCompose.xev) (c : conn),
+  TrCompose.xfeasible Tg L TrCompose.sys0 xs ->
+  let st := TrCompose.sys_run Tg L TrCompose.sys0 xs in
+  owed (TrCompose.s_g st) c ->
+  (exists (f : N) (rem : list (N * TrCompose.TM.expect)),
+     TrCompose.TM.lookup f (TrCompose.TM.praw (TrCompose.s_t st)) = Some c /\
+     TrCompose.TM.lookup f (TrCompose.TM.attempts (TrCompose.s_t st)) = Some rem /\ ~ In f (TrCompose.TM.aborted (TrCompose.s_t st))) \/
+  (exists (f : N) (k : TrCompose.TM.kind),
+     TrCompose.TM.lookup f (TrCompose.TM.pconn (TrCompose.s_t st)) = Some (c, k) /\ TrCompose.TM.is_inb k = false)).
+Check (C05_sysT_progress :
+  forall (Tg : tr) (L : limits),
+  (forall t : tr, installed L t = true <-> t = Tg) ->
+  forall (xs : list TrCompose.xev) (c : conn),
+  TrCompose.xfeasible Tg L TrCompose.sys0 xs ->
+  let st := TrCompose.sys_run Tg L TrCompose.sys0 xs in
+  owed (TrCompose.s_g st) c ->
+  exists n : TrCompose.TM.ev,
+    TrCompose.TM.polls n = true /\
+    TrCompose.xfeasible Tg L TrCompose.sys0 (xs ++ [TrCompose.XNet n]) /\
+    (exists e : ev, In e (TrCompose.sys_evs Tg L st (TrCompose.XNet n)) /\ TrCompose.answers c e)).
+Check (C05_sysT_calls_are_real :
+  forall (Tg : tr) (p : peer) (k : nat) (o : out),
+  Tg = TCP \/ Tg = WS -> TrCompose.fwd Tg p k o = map (TrCompose.TV.ev_of (TrCompose.transport_of Tg)) (TrCompose.fwdX Tg p k o)).
+Check (C05_sysT_transport_side_is_its_model :
+  forall (Tg : tr) (L : limits) (k : nat) (st : TrCompose.sys) (e : ev),
+  Tg = TCP \/ Tg = WS ->
+  (TrCompose.s_t (TrCompose.deliver Tg L k st e), TrCompose.s_tg (TrCompose.deliver Tg L k st e)) =
+  TrCompose.xrun (TrCompose.transport_of Tg) (TrCompose.s_t st) (TrCompose.s_tg st) (TrCompose.real_calls Tg L k st e)).
